@@ -201,4 +201,45 @@ MToDigits(a, radix) ==
 MFromRadixPow2(ds, w) ==
   FoldLeft(LAMBDA acc, j : MAdd(MShl(acc, w), MFromNat(ds[Len(ds) + 1 - j])), <<>>, Ix(1, Len(ds)))
 
+---------------------------------------------------------------------------
+(* Additions for C11 (TraceBigInt).  Existing names above are unchanged.     *)
+
+(* a*d + c in one carry pass, 0 < d < 2^19, 0 <= c < 2^19                     *)
+MMulAddSmall(a, d, c) ==
+  LET st == FoldLeft(LAMBDA acc, i : LET s == a[i] * d + acc[1]
+                                     IN <<s \div B, Append(acc[2], s % B)>>,
+                     <<c, <<>> >>, Ix(1, Len(a)))
+      k == st[1]
+  IN MNorm(IF k = 0 THEN st[2] ELSE IF k < B THEN Append(st[2], k)
+           ELSE Append(Append(st[2], k % B), k \div B))
+
+RECURSIVE ChunkLenFrom(_, _, _)
+ChunkLenFrom(radix, k, p) == IF p * radix >= 524288 THEN k ELSE ChunkLenFrom(radix, k + 1, p * radix)
+ChunkLen(radix) == ChunkLenFrom(radix, 1, radix)          \* largest k with radix^k < 2^19
+RECURSIVE PowSmall(_, _)
+PowSmall(r, k) == IF k = 0 THEN 1 ELSE r * PowSmall(r, k - 1)
+
+(* Horner in chunks of ChunkLen(radix) digits: the same value as MFromDigits   *)
+(* (checked in BigZCheck), about ChunkLen times fewer passes over the number.  *)
+MFromDigitsFast(ds, radix) ==
+  LET k   == ChunkLen(radix)
+      rk  == PowSmall(radix, k)
+      n   == Len(ds)
+      f   == n % k
+      cv(lo, hi) == FoldLeft(LAMBDA acc, i : acc * radix + ds[i], 0, Ix(lo, hi))
+  IN FoldLeft(LAMBDA acc, c : MMulAddSmall(acc, rk, cv(f + (c - 1) * k + 1, f + c * k)),
+              MFromNat(cv(1, f)), Ix(1, n \div k))
+
+(* x^e mod m with 0 <= result < |m|; e >= 0, m # 0.  Slow (binary long        *)
+(* division at every step): reference for small operands only.                *)
+PowModPos(x, e, m) ==
+  FoldLeft(LAMBDA acc, i : <<IF MBit(e.mag, i) = 1 THEN ModPos(Mul(acc[1], acc[2]), m) ELSE acc[1],
+                             ModPos(Mul(acc[2], acc[2]), m)>>,
+           <<ModPos(One, m), ModPos(x, m)>>, [i \in 1..BitLen(e) |-> i - 1])[1]
+
+(* coefficient of 2^k in |x|                                                  *)
+BitMag(x, k) == MBit(x.mag, k)
+(* coefficient of 2^k in the two's complement expansion of x                  *)
+BitTwos(x, k) == IF ~x.neg THEN MBit(x.mag, k) ELSE MBit(ModPow2(x, k + 1).mag, k)
+
 =============================================================================
